@@ -343,6 +343,8 @@ def pure(kind, m=2, r=0, pool=None):
         return lambda x: h(x) % 7
     if kind == "inner":
         return lambda x, *a: pool[h(x) % len(pool)]
+    if kind == "inner_alt":  # a second selector over the same pool that disagrees with "inner" (left / right durations of join differ)
+        return lambda x, *a: pool[(h(x) + 1) % len(pool)]
     if kind == "inner_i":
         return lambda x, i: pool[(h(x) + i) % len(pool)]
     if kind == "thunk_inner":
@@ -569,7 +571,10 @@ class Recorder:
         w = self.w
         self.sub_seq = w.tick()
         self.sub_t = w.now()
-        self.sub = obs.subscribe(self.on_next, self.on_error, self.on_completed, scheduler=w.s, **kw)
+        if getattr(w, "as_observer", False) and not kw:
+            self.sub = obs.subscribe(self, scheduler=w.s)  # handed over as an observer object instead of three callbacks
+        else:
+            self.sub = obs.subscribe(self.on_next, self.on_error, self.on_completed, scheduler=w.s, **kw)
         if self._dispose_pending:
             self.dispose()
         return self
@@ -603,7 +608,7 @@ class Recorder:
             self.script[1]()
         if self.raise_at is not None and k == self.raise_at:
             self.w.fired.append((self.w.seq, "subscriber:" + self.name, k))
-            raise InjectedFault("subscriber:" + self.name)
+            raise self.w.fault_cls("subscriber:" + self.name)
 
     def on_next(self, v):
         w = self.w
@@ -630,7 +635,7 @@ class Recorder:
         # subscribed by then has no owner - a double fault no statement covers
         if self.raise_on_terminal == "always" or (self.raise_on_terminal and self.sub is not None and SUBSCRIBE_DEPTH[0] == 0):
             self.w.fired.append((self.w.seq, "subscriber:" + self.name + ":terminal", 0))
-            raise InjectedFault("subscriber:" + self.name + ":terminal")
+            raise self.w.fault_cls("subscriber:" + self.name + ":terminal")
 
     def on_error(self, e):
         w = self.w
